@@ -716,7 +716,7 @@ type groupInput struct {
 }
 
 func runDiscDecode(c *fw.Ctx) {
-	rounds := c.Pick(3, 110)
+	rounds := c.Pick(3, 60)
 	checkEncoderAgainstReference(c)
 	for round := 0; round < rounds; round++ {
 		for _, nc := range []bool{false, true} {
